@@ -1,5 +1,6 @@
 import JmesVerif.Lemmas.Signature
 import JmesVerif.Generated.Signatures
+import JmesVerif.Generated.Vocab
 /-!
 # C06 — built-in functions enforce their signatures: arity and argument types
 
@@ -96,6 +97,20 @@ theorem C06_expref_args_shape (b : Builtin) (args : List Val) (off : Nat) (hv : 
     ((b = .sortBy ∨ b = .maxBy ∨ b = .minBy) ∧ ∃ a xs, args = [.arr xs, .expref a]) :=
   expref_args_shape b args off hv hb
 
+
+/-! ### the argument-type, value and type-tag vocabularies (functions.rs:20, variable.rs:52, :22), re-extracted on every run -/
+theorem C06_type_vocabulary :
+    Generated.argumentTypeFields.map (·.1) = ["Any", "Null", "String", "Number", "Bool", "Object", "Array", "Expref", "TypedArray", "Union"]
+    ∧ Generated.jmespathTypeFields.map (·.1) = ["Null", "String", "Number", "Boolean", "Array", "Object", "Expref"]
+    ∧ Generated.variableFields.map (·.1) = ["Null", "String", "Bool", "Number", "Array", "Object", "Expref"]
+    ∧ (∀ t : ArgT, Generated.argumentTypeVariant t ∈ Generated.argumentTypeFields.map (·.1))
+    ∧ (∀ v : Val, Generated.variableVariant v ∈ Generated.variableFields.map (·.1))
+    ∧ (∀ v : Val, Generated.jmespathTypeVariant v.type ∈ Generated.jmespathTypeFields.map (·.1)) := by
+  refine ⟨rfl, rfl, rfl, ?_, ?_, ?_⟩
+  · intro t; cases t <;> simp [Generated.argumentTypeVariant, Generated.argumentTypeFields]
+  · intro v; cases v <;> simp [Generated.variableVariant, Generated.variableFields]
+  · intro v; cases h : v.type <;> simp [Generated.jmespathTypeVariant, Generated.jmespathTypeFields]
+
 end JmesVerif
 
 #print axioms JmesVerif.C06_signature_table
@@ -107,3 +122,4 @@ end JmesVerif
 #print axioms JmesVerif.C06_result_type
 #print axioms JmesVerif.C06_no_unreachable
 #print axioms JmesVerif.C06_expref_args_shape
+#print axioms JmesVerif.C06_type_vocabulary
